@@ -406,3 +406,20 @@ RECIPES = [
      '    dxyz = np.array([dx, dy, dz])\n    if all6 is False or not all6:\n        return (mcg, dxyz)\n',
      'cgmass: the early return written differently'),
 ]
+
+# ---- pass 6 (round 7): cbreorder on a finite world of boundary vectors (C06-R9) - tests on the *content* of b that the term rule R3 cannot decide
+_Q_OLD = "        q = locate.flippv(b, lt)\n        if last:\n"
+RECIPES += [
+    ("C06", "break", ["C06-R9"], CB, _Q_OLD,
+     "        if not last and b.max() < lb:\n            return M\n" + _Q_OLD,
+     "round-7 seed S: b already in the leading block -> M returned as it is (wrong when b is not ascending)"),
+    ("C06", "break", ["C06-R9"], CB, _Q_OLD,
+     "        if last and b.min() >= lq:\n            return M\n" + _Q_OLD,
+     "sibling of seed S: b already in the trailing block and last=True -> M returned as it is"),
+    ("C06", "break", ["C06-R9"], CB, "            M = M[np.ix_(b, b)]\n",
+     "            if not np.array_equal(b, np.arange(lb)):\n                M = M[np.ix_(np.sort(b), np.sort(b))]\n",
+     "no-complement branch sorts b (identity when b is a permutation: the caller's order is lost)"),
+    ("C06", "neutral", [], CB, "        q = locate.flippv(b, lt)\n        if last:\n            pv = np.hstack((q, b))\n        else:\n            pv = np.hstack((b, q))\n",
+     "        q = locate.flippv(b, lt)\n        parts = (q, b) if last else (b, q)\n        pv = np.hstack(parts)\n",
+     "the two arrangements through a tuple chosen by `last`"),
+]
